@@ -25,6 +25,7 @@ package metrics
 import (
 	"fmt"
 	"runtime"
+	"sort"
 	"sync"
 	"sync/atomic"
 	"time"
@@ -489,9 +490,17 @@ func (mc *Collector) metricKey(name string, tags map[string]string) string {
 		return name
 	}
 
+	// Render the tags in sorted key order: map iteration order is random, and the
+	// same name and tags must always produce the same key.
+	tagNames := make([]string, 0, len(tags))
+	for k := range tags {
+		tagNames = append(tagNames, k)
+	}
+	sort.Strings(tagNames)
+
 	key := name
-	for k, v := range tags {
-		key += ":" + k + "=" + v
+	for _, k := range tagNames {
+		key += ":" + k + "=" + tags[k]
 	}
 	return key
 }
